@@ -3,6 +3,42 @@ from . import _scn
 from .. import monitors as M
 
 
+def utc_name_cases():
+    """the time in a manifest's name is UTC whatever the host zone: runs under the REAL clock (a frozen clock hides the
+    zone) in zones far from UTC"""
+    import os, time, glob, re, calendar
+    from .. import rt
+
+    fails = []
+    old = os.environ.get("TZ")
+    try:
+        for z in ("IST-5:30", "PST8PDT,M3.2.0,M11.1.0", "<+1245>-12:45", "<-11>11"):
+            os.environ["TZ"] = z
+            time.tzset()
+            with rt.tempdir("c06_") as d:
+                root = os.path.join(d, "root")
+                rt.mk(root, {"a.txt": "a", "s/b.txt": "b"})
+                rt.run("create", [os.path.join(root, "s"), "-h", "md5"])
+                t0 = time.time()
+                x = rt.run("create", [root, "-h", "md5"])
+                t1 = time.time()
+                names = [os.path.basename(p) for p in glob.glob(os.path.join(root, "ascmhl", "*.mhl")) + sorted(glob.glob(os.path.join(root, "s", "ascmhl", "*.mhl")))[1:]]
+                for n in names:
+                    m = re.match(r"^\d{4,}_.*_(\d{4}-\d{2}-\d{2}_\d{6})Z\.mhl$", n)
+                    st = calendar.timegm(time.strptime(m.group(1), "%Y-%m-%d_%H%M%S")) if m else None
+                    if st is None or not (int(t0) - 1 <= st <= int(t1) + 1):
+                        fails.append({"what": f"TZ={z}: create at UTC {time.strftime('%Y-%m-%d_%H%M%S', time.gmtime(t0))} names its manifest {n}: the name does not carry the UTC time", "replay": {"case": "utc_name", "tz": z}})
+                if x.exit != 0 or len(names) != 2:
+                    fails.append({"what": f"TZ={z}: create exit {x.exit}, new manifests {names}", "replay": {"case": "utc_name", "tz": z}})
+    finally:
+        if old is None:
+            os.environ.pop("TZ", None)
+        else:
+            os.environ["TZ"] = old
+        time.tzset()
+    return fails
+
+
 def run(ctx):
     scs = _scn.standard_pool(ctx, ctx.scale(50, 900), ctx.scale(30, 400), ctx.scale(4, 40))
     # folder and file names in decomposed unicode form (as copied from macOS volumes), nested
@@ -10,7 +46,7 @@ def run(ctx):
            "ops": [{"op": "create", "at": "e\u0301", "h": ["md5"], "now": "2026-03-01 12:00:00"}, {"op": "create", "at": "", "h": ["md5"], "now": "2026-03-01 12:00:01"},
                    {"op": "create", "at": "", "h": ["c4"], "now": "2026-03-01 12:00:02"}, {"op": "verify", "at": ""}, {"op": "info", "at": ""}]}
     scs.insert(0, nfd)
-    return _scn.run_scn(ctx, scs, M.m_c06, assumptions=["the clock is the injected one (freezegun); several runs share a clock second on purpose"])
+    return _scn.run_scn(ctx, scs, M.m_c06, extra_fails=utc_name_cases(), assumptions=["the clock is the injected one (freezegun); several runs share a clock second on purpose"])
 
 
 def replay(ctx, path):
